@@ -26,14 +26,19 @@ class ContainerReindex(FunctionContract):
     required_covers = ('returned',)
 
     def scenarios(self):
-        return [f'new{k}/{f}' for k in (0, 1, 2, 3) for f in ('nofill', 'fill_value', 'keyword-A', 'keyword-I', 'unknown-keyword-strict', 'unknown-keyword-lenient')]
+        # '+dup': the two labels of the old span may coincide (a label repeated in the old span addresses its first occurrence, as obj[name, label] does)
+        return [f'new{k}/{f}' for k in (0, 1, 2, 3) for f in ('nofill', 'fill_value', 'keyword-A', 'keyword-I', 'unknown-keyword-strict', 'unknown-keyword-lenient')] + \
+               [f'new{k}/{f}+dup' for k in (1, 2) for f in ('nofill', 'fill_value')]
 
     def setup(self, interp, scenario):
         ctx = interp.ctx
         ks, fs = scenario.split('/')
+        dup = fs.endswith('+dup')
+        fs = fs[:-4] if dup else fs
         k = int(ks[3:])
         old_labels = [ctx.fresh(f'old{i}', INT) for i in range(OLD_N)]
-        ctx.assume(old_labels[0] != old_labels[1])
+        if not dup:
+            ctx.assume(old_labels[0] != old_labels[1])
         new_labels = [ctx.fresh(f'new{i}', INT) for i in range(k)]
         a = [ctx.fresh(f'A{i}', F64) for i in range(OLD_N)]
         iv = [ctx.fresh(f'I{i}', INT) for i in range(OLD_N)]
@@ -68,7 +73,8 @@ class ContainerReindex(FunctionContract):
             ctx.use(A('fsic.locate.contract', '_locate_period_in_span(label) returns the position of a label that is in the span'))
             lab = V.to_int_term(args[0])
             pos = ctx.fresh('pos', INT)
-            ctx.assume(z3.Or(*[z3.And(pos == i, lab == x) for i, x in enumerate(old_labels)]))
+            # ... the position of its FIRST occurrence (list.index, Index.get_loc on a unique index, the array fall-back for a single match)
+            ctx.assume(z3.Or(*[z3.And(pos == i, lab == x, *[lab != y for y in old_labels[:i]]) for i, x in enumerate(old_labels)]))
             return SInt(pos)
 
         def copy_(interp_, o, args, kwargs, node):
